@@ -145,6 +145,9 @@ pub enum FaultKind {
     ReadEof,
     /// I/O error once the bytes already delivered have been read.
     ReadErr,
+    /// The next `poll_read` fails once with a transient error kind (0 Interrupted, 1 WouldBlock,
+    /// 2 TimedOut, 3 Other) although bytes may be available; the transport stays usable.
+    ReadGlitch { kind: u8 },
     /// `poll_write` fails after `after` more bytes were accepted.
     WriteErr { after: usize },
     /// `poll_write` returns `Ok(0)` after `after` more bytes were accepted.
